@@ -663,7 +663,8 @@ def check_c04(sc, out_bytes, spec, rf, widths, out, base_info):
                 for a, v in e["args"]:
                     if v["k"] == "sw" and v["idx"] is None and a in gd:
                         try:
-                            new_switch_slots.setdefault(v["uid"], set()).add(eval(gd[a])[1])  # noqa: S307
+                            # index-less switches with the same (non-empty) name ARE the same switch for the library
+                            new_switch_slots.setdefault(("name", v["name"]) if v["name"] else ("obj", v["uid"]), set()).add(eval(gd[a])[1])  # noqa: S307
                         except Exception:  # noqa: BLE001
                             pass
                 d = compare_entry(expected_entry(kind, e, spec, rf, widths), g[part][k])
@@ -737,6 +738,11 @@ def check_c07(sc, base_out, out_bytes, spec, out, base_info):
                         for _, v in e["args"]:
                             if v["k"] in ("loc", "sw", "cuwp") and v["idx"] is None:
                                 kinds.add(v["k"])
+                            # an object carrying a slot number the base map leaves free is an addition too
+                            if v["k"] == "loc" and v["idx"] is not None and v["idx"] not in va["locs"]:
+                                kinds.add("loc")
+                            if v["k"] == "cuwp" and v["idx"] is not None and v["idx"] not in va["cuwps"]:
+                                kinds.add("cuwp")
                             if v["k"] == "sw" and v.get("name"):
                                 kinds.add("sw")
 
